@@ -15,7 +15,7 @@ from ..guards import RoleEval, simulate
 from ..pm import AnalysisError, unparse
 from ..report import Check
 from ..sym import Resolver, Term, path_of, show, walk
-from .common import body_entry, is_path, iter_base, loc, loops_over
+from .common import body_entry, is_path, iter_base, loc, loops_over, non_accumulating_liveouts
 
 EXPLANATION = (
     "static analysis of Engine.is_ready and of the runtime sites that raise on a missing operator: one iteration "
@@ -28,7 +28,7 @@ ASSUMPTIONS = [
     "rules written with whitespace-separated tokens (property precondition); rule blocks have an activation method",
     "readiness concerns the five operator kinds of the property; other causes of exceptions are outside its quantifier",
 ]
-FLOORS = {"C1": 5, "C1-raise": 5}
+FLOORS = {"C1": 5, "C1-raise": 5, "C1-acc": 1}
 
 MARKERS = {
     "fuzzylite.rule.Rule.AND": "AND",
@@ -146,6 +146,14 @@ def run(check: Check) -> None:
            "aggregation": lambda e: not e["has_aggregation"] and e["integral"]},
           ["has_defuzzifier", "has_aggregation", "integral"],
           infeasible=lambda e: e["integral"] and not e["has_defuzzifier"])
+    # the need quantities accumulate over every rule / every conclusion
+    bad = [(name, n, h) for h in cfg.loop_heads() if h.kind == "for" for name, n in non_accumulating_liveouts(cfg, h)]
+    for name, n, h in bad:
+        check.violation("C1-acc", f"Engine.is_ready/{name}", f"`{name}` is overwritten in every iteration of the loop at line {h.lineno} and used after it: only the "
+                        "last element decides whether the operator is needed (e.g. a Mamdani conclusion followed by a weighted one hides the need for an implication)",
+                        loc(fn, n))
+    if not bad:
+        check.ok("C1-acc", "Engine.is_ready/accumulation", "every quantity computed in a loop and used after it accumulates over all elements", loc(fn))
     check.exhaustive_parts.append("is_ready report predicates: all assignments of (needed, present) per operator kind")
     runtime_sites(check)
 
